@@ -16,7 +16,7 @@ def tname(e, func, idx):
 
 
 def build(chk):
-    e = EngB(chk, 'fun', extra=['ImathFun.cpp', 'ImathColorAlgo.cpp'], vopts=dict(nvec=300, skip=('w_succf', 'w_predf', 'w_succd', 'w_predd', 'w_solve_cubic_d', 'w_solve_cubic_f'),
+    e = EngB(chk, 'fun', extra=['ImathFun.cpp', 'ImathColorAlgo.cpp'], vopts=dict(nvec=300, skip=('w_succf', 'w_predf', 'w_succd', 'w_predd', 'w_solve_cubic_d', 'w_solve_cubic_f', 'w_norm_cubic_d', 'w_norm_cubic_double_root_d'),
              int_ranges={'w_divs': (1, 1000), 'w_mods': (1, 1000), 'w_divp': (1, 1000), 'w_modp': (1, 1000), 'w_cmpi': (-2 ** 29, 2 ** 29), 'w_cmpti': (-2 ** 29, 2 ** 29),
                          'w_absi': (-2 ** 29, 2 ** 29), 'w_iszeroi': (-2 ** 29, 2 ** 29), 'w_eq_abs_i': (-2 ** 29, 2 ** 29)}))
     e.variant('exact')
@@ -72,5 +72,43 @@ def build(chk):
                     pre=lambda I: rng([I['m'], I['a']]) + [eq(I['a'], I['b'])], desc='lerpfactor(m, a, a) == 0 (no division by zero)', bounds='m, a in [-2^20, 2^20]', nvalid=0))
     chk.assumptions += ['lerp/ulerp/delegation/colour-overload obligations abstract + - * / (and sqrt) as uninterpreted functions on both sides: they decide "same formula", not its rounding',
                         'divs/mods/divp/modp: LLVM nsw flags are turned into overflow assertions (--ubcheck); the claim is for the stated bound only']
+    # ---- solveNormalizedCubic (double): complex libm modelled exactly (props/contracts.py install_complex)
+    from props import contracts as _ct
+    TOLC = Fraction(1, 10 ** 6)
+    def cubic_setup(sym):
+        _ct.install_complex(sym); sym.check_divzero = False
+    def near(a, b): return AND(le(rsub(a, b), rz(TOLC)), le(rsub(b, a), rz(TOLC)))
+    def f3(x, r, s_, t): return radd(radd(radd(rmul(rmul(x, x), x), rmul(r, rmul(x, x))), rmul(s_, x)), t)
+    def cubic_claims(r, s_, t, O, X, distinct=False):
+        xs = O['x']; n = O['ret']
+        y = X.free('y')
+        cl = []
+        for k in (1, 2, 3):
+            isk = (n == k) if isinstance(n, int) else None
+            if isk is None: raise Exception('symbolic root count')
+            if not isk: continue
+            for i in range(k):
+                v = f3(xs[i], r, s_, t)
+                cl.append(('x[%d] is a root (|f(x)| <= 1e-4)' % i, AND(le(v, rz(Fraction(1, 10 ** 4))), le(rneg(v), rz(Fraction(1, 10 ** 4))))))
+            cl.append(('every real root is returned (to 1e-6): the reported count is the number of distinct real roots', IMPLIES(eq(f3(y, r, s_, t), rz(0)), OR(*[near(y, xs[i]) for i in range(k)]))))
+            for i in range(k if distinct else 0):
+                for j in range(i + 1, k):
+                    cl.append(('returned roots %d and %d are distinct' % (i, j), NOT(near(xs[i], xs[j]))))
+        if not cl: cl.append(('root count is 1, 2 or 3', False))
+        return cl
+    def dr_claim(I, O, X):
+        b, c = I['b'], I['c']; a = rsub(c, rmul(rz(2), b)); d = radd(c, b)
+        xs = O['x']
+        if O['ret'] != 2: return [('a cubic with a simple and a double root reports 2 roots', False)]
+        return [('the two returned values are the simple root c-2b and the double root c+b (to 1e-6), one each',
+                 OR(AND(near(xs[0], a), near(xs[1], d)), AND(near(xs[0], d), near(xs[1], a))))]
+    ec.add(Case('O9.solveNormalizedCubic_double_root.d', 'w_norm_cubic_double_root_d', [Val('b'), Val('c'), Out('x', 3)], dr_claim, T='d', setup=cubic_setup, nvalid=0, allow_divzero=True, budget=300, timeout_ms=30000,
+                pre=lambda I: [AND(R(I['b']).n >= -4, R(I['b']).n <= 4), AND(R(I['c']).n >= -4, R(I['c']).n <= 4), OR(le(rz(Fraction(1, 8)), I['b']), le(I['b'], rz(Fraction(-1, 8))))],
+                desc='solveNormalizedCubic on (x-(c-2b))(x-(c+b))^2, the family whose discriminant is exactly zero in floating point: reports 2 roots, returns the simple and the double root, both distinct',
+                bounds='all real b, c in [-4,4] with |b| >= 1/8; complex sqrt/pow/division modelled by their mathematical definitions; sqrt(3) is the library\'s double constant (tolerances 1e-6 / 1e-4 absorb it)'))
+    def gen_claim(I, O, X): return cubic_claims(I['r'], I['s'], I['t'], O, X)
+    ec.add(Case('O9.solveNormalizedCubic_general.d', 'w_norm_cubic_d', [Val('r'), Val('s'), Val('t'), Out('x', 3)], gen_claim, T='d', setup=cubic_setup, nvalid=0, allow_divzero=True, budget=900, timeout_ms=60000, tier='thorough', core=False,
+                pre=lambda I: [AND(R(I[k]).n >= -4, R(I[k]).n <= 4) for k in 'rst'],
+                desc='solveNormalizedCubic(r,s,t): the returned values are roots and every real root is among them (all three discriminant branches; distinctness is not claimed: nearly coincident roots are legitimately returned twice)', bounds='all real r,s,t in [-4,4]; same complex-libm model'))
     chk.outside += ['32-bit-wide div/mod identities (bounded to 2^8 quick / 2^12 thorough)', 'root accuracy commensurate with conditioning', 'solveNormalizedCubic (cbrt/acos/complex pow)',
                     'hsv2rgb(rgb2hsv(c)) == c on the unit cube and integer-element colour scaling: not yet attempted', 'lerpfactor never overflows on IEEE floats (no verdict in 300 s)']
